@@ -20,7 +20,7 @@ fn c14_alphabet_quick(_cfg: &NodeCfg) -> Vec<Op> {
     // SetExpiry(3*EXP): a *raised* finite expiry must protect already closed segments
     // the clock moves in steps of half an expiry (+1): two steps expire a message, one step leaves a
     // segment whose batches have different ages
-    vec![Op::Send(1), Op::Send(5), Op::Advance(EXP / 2 + 1), Op::Maintain, Op::Restart, Op::SetExpiry(3 * EXP)]
+    vec![Op::Send(1), Op::Send(5), Op::Advance(EXP / 2 + 1), Op::Maintain, Op::Restart, Op::SetExpiry(3 * EXP), Op::Advance(EXP + 1)]
 }
 
 fn c14_alphabet(_cfg: &NodeCfg) -> Vec<Op> {
@@ -121,6 +121,10 @@ pub fn plan(prop: &str, tier: &str) -> (PropMeta, Vec<Job>) {
                     for cache_idx in if quick { vec![true] } else { vec![true, false] } {
                         for expiry_us in [EXP, 0] {
                             if quick && expiry_us == 0 && (cache || nowait) {
+                                continue;
+                            }
+                            // quick: the two diagonal corners of cache x confirmation (the alphabet has seven operations)
+                            if quick && expiry_us > 0 && cache != nowait {
                                 continue;
                             }
                             for threshold in if quick { vec![2] } else { vec![1, 2, 1000] } {
